@@ -108,7 +108,13 @@ def run_disc(fn_name, data, comp, mode, tol, scalar_comp=False, dtype=None, cdty
         with np.errstate(all="ignore"):
             if fn_name == "comparative":
                 c = comp[0] if scalar_comp else xr.DataArray(np.array(comp, dtype=cdtype or float), dims=[fresh("c")])
+                before = (np.array(d.values, copy=True), None if scalar_comp else np.array(c.values, copy=True))
                 out = comparative_discretise(d, c, py_mode(mode), **kw)
+                # the caller's arrays are inputs, not scratch space: a second call with the same objects must see the same values
+                same_in = np.array_equal(before[0], d.values, equal_nan=True) and \
+                    (scalar_comp or np.array_equal(before[1], c.values, equal_nan=True))
+                if not same_in:
+                    return ("err", "input-mutated: the data / comparison array handed to comparative_discretise was modified in place")
                 if scalar_comp:
                     out = out.expand_dims("c", axis=-1)
                 vals = out.transpose("x", "c").values
